@@ -2,18 +2,22 @@
 (* Layer B: the peer table (scc::HashMap) as the socket calls and the handshake tasks use it, at the
    granularity of one bucket lock, on a runtime with a given number of worker threads.
 
-   A socket call (PUSH/DEALER send_round_robin, REQ/REP/ROUTER send, SUB subscribe, REQ recv) takes the
-   entry of its peer with get_async and HOLDS it across the await of the transport.  A handshake task
-   registers a new peer with upsert_async: if the bucket is locked it queues and is suspended; the
-   lock is handed to the head of the queue when the holder releases it.  When the transport fails,
-   the call releases the entry and then forgets the peer:
-     Dev = {"sync_remove"}  with remove_sync, a BLOCKING wait that occupies the thread (the pinned
-                            tree in send_round_robin; the other sites after the first lifecycle fixes)
-     Dev = {}               with remove_async (awaited; after fix 5ae760c)
-   With one worker thread the blocking wait can never be granted when a queued handshake was handed
-   the lock: that task needs the thread the waiter occupies.  TLC finds the deadlock (a state where the
-   only thread is blocked and the lock owner is suspended) and shows it gone for the awaited removal;
-   with two threads the blocking wait is merely a blocked worker.                                   *)
+   A handshake task registers a new peer with upsert_async: if the bucket is locked it queues and is
+   suspended; the lock is handed to the head of the queue when the holder releases it.  A socket call
+   (PUSH/DEALER send_round_robin, REQ/REP/ROUTER send, SUB subscribe, REQ recv) looks its peer up and
+   then waits for the transport; when the transport fails it forgets the peer.
+     Dev = {}                        the repaired code (fix 57cfaf1): the call copies a shared entry out of
+                                     the table (the bucket is locked for an instant) and waits holding only
+                                     that entry's own lock; forgetting is a blocking remove_if_sync
+     Dev = {"held"}                  the entry - and with it the bucket - is HELD across the await, the
+                                     removal is awaited (the code after the intermediate fix 5ae760c)
+     Dev = {"held", "sync_remove"}   held across the await, removal with remove_sync (the pinned tree in
+                                     send_round_robin)
+   With one worker thread a blocking wait can never be granted when a queued handshake was handed the
+   lock: that task needs the thread the waiter occupies.  TLC finds that state for {"held",
+   "sync_remove"} and shows it unreachable in the other two; with two threads it is merely a blocked
+   worker.  Only with Dev = {} is no task ever suspended while it owns the bucket (NoSuspendedOwner),
+   which is what makes every other blocking operation on the table (the stream-end hook, Drop) safe.  *)
 EXTENDS Naturals, Sequences, FiniteSets, TLC
 CONSTANTS Hs,        \* handshake tasks
           Threads,   \* worker threads of the runtime
@@ -55,15 +59,17 @@ Step(t) ==
      \/ /\ pc[t] = "lock_wait" /\ owner = t /\ pc' = [pc EXCEPT ![t] = "locked"] /\ UNCHANGED <<owner, queue, onthread, io>>
      \/ /\ pc[t] = "locked" /\ t \in Hs                                                        \* upsert done: release
         /\ Release /\ pc' = [pc EXCEPT ![t] = "done"] /\ onthread' = onthread \ {t} /\ UNCHANGED io
-     \/ /\ pc[t] = "locked" /\ t = Call                                                        \* send(..).await with the entry held
+     \/ /\ pc[t] = "locked" /\ t = Call /\ "held" \in Dev                                     \* send(..).await with the entry held
         /\ pc' = [pc EXCEPT ![t] = "await_io"] /\ onthread' = onthread \ {t} /\ UNCHANGED <<owner, queue, io>>
+     \/ /\ pc[t] = "locked" /\ t = Call /\ "held" \notin Dev                                  \* copy the shared entry out, release the bucket, then wait
+        /\ Release /\ pc' = [pc EXCEPT ![t] = "await_io"] /\ onthread' = onthread \ {t} /\ UNCHANGED io
      \/ /\ pc[t] = "await_io" /\ io # "pending" /\ pc' = [pc EXCEPT ![t] = "release"] /\ UNCHANGED <<owner, queue, onthread, io>>
-     \/ /\ pc[t] = "release" /\ Release                                                        \* drop(peer)
+     \/ /\ pc[t] = "release" /\ (IF "held" \in Dev THEN Release ELSE UNCHANGED <<owner, queue>>)  \* drop(peer) / nothing held
         /\ IF io = "err" THEN pc' = [pc EXCEPT ![t] = "forget"] /\ UNCHANGED onthread
            ELSE pc' = [pc EXCEPT ![t] = "done"] /\ onthread' = onthread \ {t}
         /\ UNCHANGED io
      \/ /\ pc[t] = "forget" /\ UNCHANGED io
-        /\ IF "sync_remove" \in Dev
+        /\ IF "sync_remove" \in Dev \/ "held" \notin Dev
              THEN IF owner = "none" THEN owner' = t /\ pc' = [pc EXCEPT ![t] = "rm_locked"] /\ UNCHANGED <<queue, onthread>>
                   ELSE queue' = Append(queue, t) /\ pc' = [pc EXCEPT ![t] = "rm_blocked"] /\ UNCHANGED <<owner, onthread>>   \* keeps the thread
              ELSE LockAsync(t, "rm_locked", "rm_wait")
@@ -82,6 +88,8 @@ Stuck == /\ Cardinality(onthread) = Threads
          /\ \A t \in onthread : pc[t] = "rm_blocked" /\ owner # t
          /\ owner \notin onthread
 NeverStuck == ~Stuck
+\* no task is ever suspended (off its thread) while it owns the bucket
+NoSuspendedOwner == owner = "none" \/ owner \in onthread \/ pc[owner] \in {"lock_wait", "rm_wait"}
 Terminates == <>AllDone
 \* reachability companion (must be violated): a handshake really queues behind the call's entry
 Reach_HandshakeQueued == ~(\E h \in Hs : pc[h] = "lock_wait" /\ pc[Call] = "await_io")
